@@ -175,6 +175,17 @@ Proof.
         -- intros H; injection H as <- <- <-. rewrite <- Hsplit. split; [apply view_ext; auto|split; auto].
 Qed.
 
+Lemma write_chunks_buf_view cap cs : forall w k X w' k' ok, view w k X -> write_chunks_buf cap w k cs = (w', k', ok) ->
+  view w' k' (X ++ concat cs) /\ (ok = false -> full k') /\ (full k -> full k').
+Proof.
+  induction cs as [|c cs IH]; intros w k X w' k' ok Hv; cbn [write_chunks_buf concat].
+  - intros H; injection H as <- <- <-. rewrite app_nil_r. split; [auto|split; [discriminate|auto]].
+  - destruct (bw_write cap w k c) as [[w1 k1] ok1] eqn:Ew.
+    destruct (bw_write_view _ _ _ _ _ _ _ _ Hv Ew) as (A & B & C). rewrite app_assoc. destruct ok1.
+    + intros H. destruct (IH _ _ _ _ _ _ A H) as (A2 & B2 & C2). split; [auto|split; auto].
+    + intros H; injection H as <- <- <-. split; [apply view_ext; auto|split; auto].
+Qed.
+
 Lemma write_pieces_direct_view w ps : bw_buf w = [] -> bw_err w = false -> forall k X k' ok, view w k X ->
   write_pieces_direct k ps = (k', ok) -> view w k' (X ++ concat ps) /\ (ok = false -> full k') /\ (full k -> full k').
 Proof.
@@ -498,11 +509,27 @@ Proof.
   apply scan_stream_pinv. apply pinv_set_ins. auto.
 Qed.
 
-Lemma step_pinv s o : pinv s -> pinv (fst (step E s o)).
+Lemma write_stdout_rec_pinv s rec : pinv s -> step_ok s (fst (write_stdout_rec E s rec)).
 Proof.
-  intros Hp. destruct o as [d ps|n|[n|]|c|n|c| |code| |n]; cbn [step].
-  - pose proof (get_output_stream_pinv s d Hp) as Hp1. destruct (get_output_stream E s d) as [s1 [[|n]|]]; cbn [fst] in *; auto.
-    + pose proof (write_stdout_pinv s1 ps Hp1) as (A & _). destruct (write_stdout E s1 ps) as [s2 [|]]; auto.
+  intros Hp. unfold write_stdout_rec.
+  destruct (e_mode E) eqn:Em; try apply write_stdout_pinv; auto.
+  destruct (cap <? scratch_size)%nat; [|apply write_stdout_pinv; auto].
+  unfold step_ok.
+  pose proof (pinv_touch s Hp) as Hp1. destruct (touch_eq s) as (A & B & C & D). unfold sfull. rewrite <- B, <- C.
+  set (s1 := touch E s) in *. destruct Hp1 as (Hv & Hm & Hc).
+  cbn [st_out st_sink add_log].
+  destruct (write_chunks_buf cap (st_out s1) (st_sink s1) (scratch_chunks rec)) as [[w k] ok] eqn:Ew. cbn [fst].
+  destruct (write_chunks_buf_view _ _ _ _ _ _ _ _ Hv Ew) as (Hv1 & _ & Hfull). rewrite scratch_chunks_concat in Hv1.
+  split; [|split; [exact Hfull|reflexivity]].
+  unfold pinv. cbn [st_out st_sink st_outs st_log set_out add_log expected_stdout]. rewrite Em. split; [exact Hv1|split; [auto|]].
+  intros n o Hin Hcg. apply Hfull. eapply Hc; eauto.
+Qed.
+
+Lemma step_print_pinv s d ps wr : pinv s -> (forall s1, pinv s1 -> pinv (fst (wr s1))) -> pinv (fst (step_print E s d ps wr)).
+Proof.
+  intros Hp Hwr. unfold step_print.
+  pose proof (get_output_stream_pinv s d Hp) as Hp1. destruct (get_output_stream E s d) as [s1 [[|n]|]]; cbn [fst] in *; auto.
+    + pose proof (Hwr s1 Hp1) as A. destruct (wr s1) as [s2 [|]]; auto.
     + destruct (alookup n (st_outs s1)) as [os|] eqn:El; cbn [fst]; auto.
       set (s1' := add_log s1 _).
       assert (Hp1' : pinv s1') by (subst s1'; apply pinv_add_log; auto; destruct (os_kind os); exact I).
@@ -510,6 +537,12 @@ Proof.
       { intros Hc. apply (pinv_lookup _ _ _ Hp1 El Hc). }
       destruct (write_ostream E s1' n os (concat ps)) as [s2 os']. cbn [fst snd] in *.
       eapply pinv_put; eauto.
+Qed.
+
+Lemma step_pinv s o : pinv s -> pinv (fst (step E s o)).
+Proof.
+  intros Hp. destruct o as [d ps|n|[n|]|c|n|c| |code| |n|d rec]; cbn [step].
+  - apply step_print_pinv; auto. intros s1 Hp1. apply write_stdout_pinv; auto.
   - destruct (alookup n (st_ins s)) as [i|].
     + destruct (if is_cmd i then _ else _) as [code err]. cbn [fst]. apply pinv_add_obs.
       apply if_print_errorf_pinv. apply pinv_add_log; [exact I|]. apply pinv_set_ins; auto.
@@ -541,6 +574,7 @@ Proof.
   - destruct (amem n (st_outs s)); cbn [fst]; auto.
     destruct (negb (amem n (st_ins s)) && negb (amem n (st_fs s))); cbn [fst]; [apply pinv_set_unmod; auto|].
     apply getline_file_pinv. apply pinv_add_synced; auto.
+  - apply step_print_pinv; auto. intros s1 Hp1. apply write_stdout_rec_pinv; auto.
 Qed.
 
 Lemma exec_pinv ops : forall s, pinv s -> pinv (fst (exec E s ops)).
